@@ -264,6 +264,20 @@ def two_calls(fn):
                 edit_in_place(m)
             ctx.check([read_vertices(m) for m in res1] == now1, gen + ":results-share-state",
                       "editing the vertices of the second returned mesh in place changed the mesh returned by the first call (results share coordinate arrays)")
+        if gen in ("dual_mesh", "spherify_vertices", "cylindrify_edges") and not case.get("far"):
+            # the input object is dropped and collected; a NEW input of the same element counts (moved rigidly) follows,
+            # possibly at the recycled address: a cache keyed by id(mesh) / id(array) would answer for the old one
+            import gc
+            ctx.label("new-input-after-gc")
+            for _ in range(2):
+                res1, res2, snap1, now1 = [], [], None, None
+                A.objs.clear()
+                A = None
+                gc.collect()
+                A = Args()
+                case = sibling_case(case)
+                fn(case, RecordingCtx(ctx, [], "[call on a new input object of the same size, after the previous input was deleted and garbage collected] "), A)
+                A.check_unchanged(ctx, gen)
     run.__name__ = fn.__name__
     return run
 
@@ -311,6 +325,18 @@ POISON = {
 }
 
 
+def sibling_case(case):
+    """the same case with its input geometry moved rigidly (coordinates cyclically permuted + translated): same element
+    counts and connectivity, different coordinates"""
+    S = float(case.get("scale", 1.0) or 1.0)
+    t = [2.0 * S, -1.0 * S, 3.0 * S]
+    out = dict(case)
+    for k in ("V", "points"):
+        if k in case:
+            out[k] = [[p[1] + t[0], p[2] + t[1], p[0] + t[2]] for p in case[k]]
+    return out
+
+
 def mesh_reader(m):
     out = {"V": [[float(x) for x in v] for v in m.vertices]}
     for cont in ("edges", "faces"):
@@ -325,12 +351,19 @@ def label_args(case, ctx):
     if case.get("int_args"):
         ctx.label("int-typed-args")
     if case.get("defaults"):
-        ctx.label("defaulted-centre-radius")
+        ctx.label("defaulted-centre-radius" if case["defaults"] is True else "defaulted-centre")
     if case.get("far"):
         ctx.label("far-from-origin")
     if case.get("np_ints"):
         ctx.label("numpy-int-parameters")
-    if case.get("wide"):
+    if case.get("wide") == "pow2":
+        ctx.label("pow2-boundary-size")
+    if case.get("near_special"):
+        ctx.label("near-special-value")
+    for k in ("radius", "major_radius", "defect"):
+        if case.get("int_scalars") and isinstance(case.get(k), float) and case[k] == int(case[k]):
+            ctx.label("int-valued-scalars")
+    if case.get("wide") in ("hazard", "random"):
         ctx.label("wide-resolution", "hazard-resolution" if case["wide"] == "hazard" else "random-wide-resolution")
     if case.get("array_dtype"):
         ctx.label("array-dtype=" + case["array_dtype"])
@@ -575,8 +608,33 @@ def center(src):
     return [0.0, 0.0, 0.0] if src.choice([0, 1, 2]) == 0 else point(src)
 
 
+NEAR = (8e-6, -7e-6, 1e-7, -1e-7, 3e-10)
+
+
+def near(x):
+    """values within 1e-5 relative of a special value x (where an isclose()-style shortcut would wrongly trigger)"""
+    return [float(x * (1 + d)) for d in NEAR]
+
+
 def radius(src):
-    return src.real(0.05, 20.0, nice=[1.0, 0.5, 2.0, 1.2])
+    return src.real(0.05, 20.0, nice=[1.0, 0.5, 2.0, 1.2] + near(1.0))
+
+
+POW2_N = [126, 127, 128, 129, 254, 255, 256, 257, 258]
+
+
+def pow2_pairs(min_a, min_b, prods=range(250, 263)):
+    """all (a, b) whose product (a vertex / face count) lies around 256"""
+    return [[a, q // a] for q in prods for a in range(min_a, q + 1) if q % a == 0 and q // a >= min_b]
+
+
+def is_pow2_size(*counts):
+    return any(abs(c - 256) <= 6 or abs(c - 128) <= 2 or abs(c - 65536) <= 600 or abs(c - 32768) <= 2 for c in counts)
+
+
+def Rv(case, x):
+    """a real parameter as passed to the generator: float, or a python int when it is integral (class 'int-valued-scalars')"""
+    return int(x) if case.get("int_scalars") and float(x) == int(x) else float(x)
 
 
 def distinct_points(src, n, sep=0.25, ints=False):
@@ -633,7 +691,7 @@ def config_excluded(case, cfg):
 
 def common_flags(src, case):
     """flags every case carries: library-wide config switches of the case and the form of integer parameters"""
-    flags = {"np_ints": src.choice([False] * 5 + [True])}
+    flags = {"np_ints": src.choice([False] * 5 + [True]), "int_scalars": src.choice([False, False, True])}
     switches = [{}] * 6 + [{"sort_neighborhoods": False}, {"complete_edges_from_faces": False}, {"complete_faces_from_cells": False},
                            {"display_duplicate_attribute_warning": True}, {"export_edges_in_obj": False}]
     cfg = src.choice(switches)
@@ -643,9 +701,42 @@ def common_flags(src, case):
 
 def widen(src, n):
     """a resolution: the lattice value mostly, sometimes an arbitrary value of a wide range; returns (value, class)"""
-    if src.choice([0] * 9 + [1]):
+    if n < 100 and src.choice([0] * 9 + [1]):
         return src.integer(10, 300), "random"
     return n, None
+
+
+def tag_sizes(case):
+    """class 'pow2-boundary-size': a vertex / face / element count of the result lies around 128, 256, 32768 or 65536"""
+    g = case.get("gen")
+    c = []
+    if g == "torus":
+        ab = case["major_segments"] * case["minor_segments"]
+        c = [ab, 2 * ab if case["triangulate"] else ab]
+    elif g == "sphere_uv":
+        ab = case["n_lat"] * case["n_long"]
+        c = [ab, ab + 2]
+    elif g == "unit_grid":
+        c = [case["nu"] * case["nv"], (case["nu"] - 1) * (case["nv"] - 1) * (2 if case["triangulate"] else 1)]
+    elif g == "unit_triangle":
+        c = [case["nu"] * (case["nu"] + 1) // 2, (case["nu"] - 1) ** 2]
+    elif g == "cylinder":
+        c = [2 * case["N"], 2 * case["N"] + 2, 4 * case["N"]]
+    elif g == "ring":
+        c = [case["N"] * case["n_cover"], case["N"] * case["n_cover"] + 1, case["N"] * case["n_cover"] + 2]
+    elif g == "flat_ring":
+        c = [case["N"] * case["n_cover"], case["N"] * case["n_cover"] + 2]
+    elif g == "sphere_fibonacci":
+        c = [case["n_pts"], 2 * case["n_pts"] - 4]
+    elif g == "chain_of_vertices":
+        c = [len(case["points"])]
+    elif g == "vector_field":
+        c = [2 * len(case["origins"])]
+    elif g == "cylindrify_edges":
+        c = [2 * case["N"], 2 * case["N"] * max(1, len(case["edges"]))]
+    if c and is_pow2_size(*c) and case.get("wide") in (None, "hazard"):
+        case["wide"] = "pow2"
+    return case
 
 
 def arg_class(src):
@@ -678,7 +769,7 @@ def family_strategy(name):
     def strat(draw):
         src = HypSrc(draw)
         case = build(draw(st.sampled_from(lat)), src)
-        case.update(common_flags(src, case))
+        case.update(common_flags(src, tag_sizes(case)))
         return case
     return strat()
 
@@ -830,11 +921,13 @@ def fn_hexahedron(case, ctx, A):
 # ================================================================================================ platonic solids
 
 PLATONIC_LATTICE = [["octahedron", False, False], ["dodecahedron", False, False], ["icosahedron", False, False],
-                    ["icosahedron", True, False], ["icosahedron", False, True]]
+                    ["icosahedron", True, False], ["icosahedron", False, True], ["icosahedron", False, "near1"]]
 
 
 def centre_radius(src, defaults):
     """centre, radius, scale, int flag of a sphere-like generator (defaults: arguments omitted in the call)"""
+    if defaults == "near1":     # centre left at its default (the origin), radius close to but different from 1
+        return {"center": [0.0, 0.0, 0.0], "radius": src.choice(near(1.0)), "defaults": "radius-only", "near_special": True}
     if defaults:
         return {"center": [0.0, 0.0, 0.0], "radius": 1.0, "defaults": True}
     S, ints = arg_class(src)
@@ -868,17 +961,19 @@ def fn_platonic(case, ctx, A):
         nV, nF, ar = 20, 12, 5
     else:
         c = np.array(case["center"], dtype=float)
-        rad = float(case["radius"]) * (0.5 if A.round == 2 and not case.get("defaults") else 1.0)
+        rad = float(case["radius"]) * (0.5 if A.round == 2 and case.get("defaults") is not True else 1.0)
         uv = bool(case["uv"])
         ctx.label(f"icosahedron:uv={uv}")
         label_args(case, ctx)
         ctx.nontrivial(uv or rad != 1.0 or bool(np.any(c != 0)))
-        if case.get("defaults"):
+        if case.get("defaults") is True:
             ok, m = ctx.call(pre, M.procedural.icosahedron)
+        elif case.get("defaults") == "radius-only":
+            ok, m = ctx.call(pre, M.procedural.icosahedron, radius=Rv(case, rad))
         elif uv:
-            ok, m = ctx.call(pre, M.procedural.icosahedron, A.vec("center", c, case.get("int_args")), rad, uv=True)
+            ok, m = ctx.call(pre, M.procedural.icosahedron, A.vec("center", c, case.get("int_args")), Rv(case, rad), uv=True)
         else:
-            ok, m = ctx.call(pre, M.procedural.icosahedron, center=A.vec("center", c, case.get("int_args")), radius=rad)
+            ok, m = ctx.call(pre, M.procedural.icosahedron, center=A.vec("center", c, case.get("int_args")), radius=Rv(case, rad))
         nV, nF, ar = 12, 20, 3
     if not ok:
         return
@@ -916,7 +1011,7 @@ AXES = ["x", "y", "z", "-z", "near-z", "random"]
 def build_cylinder(p, src):
     N, caps, ax = p
     P1 = center(src)
-    h = src.real(0.1, 10.0, nice=[1.0, 2.0])
+    h = src.real(0.1, 10.0, nice=[1.0, 2.0] + near(1.0)[:2])
     if ax == "random":
         d = [src.real(-1, 1), src.real(-1, 1), src.real(-1, 1)]
         n = math.sqrt(sum(x * x for x in d))
@@ -971,7 +1066,7 @@ def fn_cylinder(case, ctx, A):
     ctx.nontrivial(not caps)
     pre = "cylinder"
     ints = case.get("int_args")
-    ok, m = ctx.call(pre, M.procedural.cylinder, A.vec("P1", P1, ints), A.vec("P2", P2, ints), radius=rad, N=I(case, N), fill_caps=caps)
+    ok, m = ctx.call(pre, M.procedural.cylinder, A.vec("P1", P1, ints), A.vec("P2", P2, ints), radius=Rv(case, rad), N=I(case, N), fill_caps=caps)
     if not ok:
         return
     r = check_surface(ctx, pre, m, nV=2 * N + (2 if caps else 0), nF=4 * N if caps else 2 * N, arity=3,
@@ -1002,8 +1097,8 @@ def fn_cylinder(case, ctx, A):
 def build_torus(p, src):
     a, b, tri = p
     S, _ = arg_class(src)
-    R = src.real(0.5, 10.0, nice=[1.0])
-    r = float(round(src.real(0.05, 0.9, nice=[0.3]) * R, 6))
+    R = src.real(0.5, 10.0, nice=[1.0] + near(1.0)[:2])
+    r = float(round(src.real(0.05, 0.9, nice=[0.3, 0.300002, 0.299998]) * R, 6))
     wide = "hazard" if max(a, b) > 50 or (max(a, b) in HAZARD and min(a, b) == 3) else None
     if wide is None and max(a, b) < 10:
         if src.choice([0, 1]):
@@ -1022,7 +1117,7 @@ def fn_torus(case, ctx, A):
     label_args(case, ctx)
     ctx.nontrivial(a != b or tri)
     pre = "torus"
-    ok, m = ctx.call(pre, M.procedural.torus, I(case, a), I(case, b), R, r0, triangulate=tri)
+    ok, m = ctx.call(pre, M.procedural.torus, I(case, a), I(case, b), Rv(case, R), r0, triangulate=tri)
     if not ok:
         return
     r = check_surface(ctx, pre, m, nV=a * b, nF=a * b * (2 if tri else 1), arity=3 if tri else 4, chi=0, loops=0, comps=1)
@@ -1058,7 +1153,7 @@ def build_sphere_uv(p, src):
 def fn_sphere_uv(case, ctx, A):
     import mouette as M
     n_lat, n_long = int(case["n_lat"]), int(case["n_long"])
-    dflt = bool(case.get("defaults"))
+    dflt = case.get("defaults") is True
     c, rad = np.array(case["center"], float), float(case["radius"]) * (0.5 if A.round == 2 and not dflt else 1.0)
     ctx.label("equal" if n_lat == n_long else "unequal", f"n_lat={n_lat}", f"n_long={n_long}")
     label_args(case, ctx)
@@ -1066,8 +1161,10 @@ def fn_sphere_uv(case, ctx, A):
     pre = "sphere_uv"
     if dflt:
         ok, m = ctx.call(pre, M.procedural.sphere_uv, I(case, n_lat), I(case, n_long))
+    elif case.get("defaults") == "radius-only":
+        ok, m = ctx.call(pre, M.procedural.sphere_uv, I(case, n_lat), I(case, n_long), radius=Rv(case, rad))
     else:
-        ok, m = ctx.call(pre, M.procedural.sphere_uv, I(case, n_lat), I(case, n_long), center=A.vec("center", c, case.get("int_args")), radius=rad)
+        ok, m = ctx.call(pre, M.procedural.sphere_uv, I(case, n_lat), I(case, n_long), center=A.vec("center", c, case.get("int_args")), radius=Rv(case, rad))
     if not ok:
         return
     # vertex count pinned by tests/test_procedural.py::test_sphere_uv ("don't forget the poles")
@@ -1098,7 +1195,7 @@ def build_icosphere(p, src):
 def fn_icosphere(case, ctx, A):
     import mouette as M
     n = int(case["n_refine"])
-    dflt = bool(case.get("defaults"))
+    dflt = case.get("defaults") is True
     c, rad = np.array(case["center"], float), float(case["radius"]) * (0.5 if A.round == 2 and not dflt else 1.0)
     ctx.label(f"n_refine={n}")
     label_args(case, ctx)
@@ -1106,8 +1203,10 @@ def fn_icosphere(case, ctx, A):
     pre = "icosphere"
     if dflt:
         ok, m = ctx.call(pre, M.procedural.icosphere, I(case, n))
+    elif case.get("defaults") == "radius-only":
+        ok, m = ctx.call(pre, M.procedural.icosphere, I(case, n), radius=Rv(case, rad))
     else:
-        ok, m = ctx.call(pre, M.procedural.icosphere, I(case, n), A.vec("center", c, case.get("int_args")), rad)
+        ok, m = ctx.call(pre, M.procedural.icosphere, I(case, n), A.vec("center", c, case.get("int_args")), Rv(case, rad))
     if not ok:
         return
     r = check_surface(ctx, pre, m, nV=10 * 4 ** n + 2, nF=20 * 4 ** n, arity=3, chi=2, loops=0, comps=1)
@@ -1119,7 +1218,7 @@ def fn_icosphere(case, ctx, A):
 
 
 FIB_LATTICE = ([[n, s] for n in list(range(1, 41)) + [100, 300] for s in BOOL if n >= 4 or not s] +
-               [[n, bool(n % 2)] for n in HAZARD if n > 40])
+               [[n, bool(n % 2)] for n in HAZARD if n > 40] + [[n, s] for n in POW2_N for s in BOOL])
 
 
 def build_fibonacci(p, src):
@@ -1135,7 +1234,7 @@ def fn_fibonacci(case, ctx, A):
     ctx.label(f"build_surface={surf}", "n<=8" if n <= 8 else "n>40" if n > 40 else "n>8")
     ctx.nontrivial(not surf or rad != 1.0)
     pre = "sphere_fibonacci"
-    ok, m = ctx.call(pre, M.procedural.sphere_fibonacci, I(case, n), radius=rad, build_surface=surf)
+    ok, m = ctx.call(pre, M.procedural.sphere_fibonacci, I(case, n), radius=Rv(case, rad), build_surface=surf)
     if not ok:
         return
     if surf:
@@ -1164,7 +1263,7 @@ MAX_DEFECT = 2 * math.pi - 0.01
 
 
 def defect(src):
-    return src.real(0.0, MAX_DEFECT, nice=[0.0, 0.1, 0.3, math.pi / 2, math.pi, 5.0, MAX_DEFECT])
+    return src.real(0.0, MAX_DEFECT, nice=[0.0, 0.1, 0.3, math.pi / 2, math.pi, 5.0, MAX_DEFECT, 1e-7, 1e-5, MAX_DEFECT - 1e-7] + near(math.pi)[:2])
 
 
 def build_ring(p, src):
@@ -1181,7 +1280,7 @@ def fn_ring(case, ctx, A):
     ctx.nontrivial(opn or nc != 1)
     label_args(case, ctx)
     pre = "ring"
-    ok, m = ctx.call(pre, M.procedural.ring, I(case, N), defect, opn, I(case, nc))
+    ok, m = ctx.call(pre, M.procedural.ring, I(case, N), Rv(case, defect), opn, I(case, nc))
     if not ok:
         return
     K = N * nc
@@ -1215,7 +1314,7 @@ def fn_flat_ring(case, ctx, A):
     ctx.nontrivial(nc != 1)
     label_args(case, ctx)
     pre = "flat_ring"
-    ok, m = ctx.call(pre, M.procedural.flat_ring, I(case, N), defect, I(case, nc))
+    ok, m = ctx.call(pre, M.procedural.flat_ring, I(case, N), Rv(case, defect), I(case, nc))
     if not ok:
         return
     K = N * nc
@@ -1389,7 +1488,8 @@ def fn_unit_triangle(case, ctx, A):
 
 POLYLINE_LATTICE = ([["chain_of_vertices", n, loop, K, ex] for n in range(1, 9) for loop in BOOL for K in (2, 3) for ex in BOOL
                      if (n >= 3 or not loop) and (ex or not loop)] +
-                    [["vector_field", n, K, dflt] for n in range(1, 7) for K in (1, 2, 3) for dflt in BOOL])
+                    [["vector_field", n, K, dflt] for n in range(1, 7) for K in (1, 2, 3) for dflt in BOOL] +
+                    [["chain_of_vertices", n, bool(n % 2), 3, True] for n in POW2_N] + [["vector_field", n, 3, False] for n in (127, 128, 129)])
 
 
 def build_polyline(p, src):
@@ -1689,20 +1789,28 @@ FAMILIES.update({
     "hexahedra": (HEXA_LATTICE, build_hexa, fn_hexahedron),
     "platonic": (PLATONIC_LATTICE, build_platonic, fn_platonic),
     "cylinder": (product(range(3, 13), BOOL, AXES) + product((20, 50), BOOL, ("z", "random")) +
-                 [[n, bool(n % 2), "random"] for n in HAZARD], build_cylinder, fn_cylinder),
+                 [[n, bool(n % 2), "random"] for n in HAZARD] + [[n, c, "random"] for n in POW2_N[:4] for c in BOOL],
+                 build_cylinder, fn_cylinder),
     "torus": (product(range(3, 10), range(3, 10), BOOL) + product((50, 30, 10), (30, 20, 10), BOOL) +
-              [[n, 3, bool(n % 2)] for n in HAZARD] + [[3, n, bool(n % 2)] for n in HAZARD], build_torus, fn_torus),
+              [[n, 3, bool(n % 2)] for n in HAZARD] + [[3, n, bool(n % 2)] for n in HAZARD] +
+              [[a, b, False] for a, b in pow2_pairs(3, 3)] + [[a, b, True] for a, b in pow2_pairs(3, 3, range(126, 131))],
+              build_torus, fn_torus),
     "sphere_uv": (product(range(2, 10), range(3, 10), BOOL) + product((30, 20), (50, 30, 20), BOOL) +
-                  [[n, 3, False] for n in HAZARD] + [[2, n, False] for n in HAZARD], build_sphere_uv, fn_sphere_uv),
-    "icosphere": (product(range(0, 4), BOOL), build_icosphere, fn_icosphere),
+                  [[n, 3, False] for n in HAZARD] + [[2, n, False] for n in HAZARD] + [[a, b, False] for a, b in pow2_pairs(2, 3)] +
+                  [[3, 4, "near1"], [2, 3, "near1"], [9, 9, "near1"]], build_sphere_uv, fn_sphere_uv),
+    "icosphere": (product(range(0, 4), (False, True, "near1")), build_icosphere, fn_icosphere),
     "sphere_fibonacci": (FIB_LATTICE, build_fibonacci, fn_fibonacci),
-    "ring": (product(range(3, 11), BOOL, (1, 2, 3)) + [[n, bool(n % 2), 1] for n in HAZARD], build_ring, fn_ring),
-    "flat_ring": (product(range(1, 11), (1, 2, 3)) + [[n, 1] for n in HAZARD], build_flat_ring, fn_flat_ring),
+    "ring": (product(range(3, 11), BOOL, (1, 2, 3)) + [[n, bool(n % 2), 1] for n in HAZARD] + [[n, o, 1] for n in POW2_N for o in BOOL] +
+             [[n, False, 2] for n in (64, 127, 128)], build_ring, fn_ring),
+    "flat_ring": (product(range(1, 11), (1, 2, 3)) + [[n, 1] for n in HAZARD] + [[n, 1] for n in POW2_N], build_flat_ring, fn_flat_ring),
     "triangle_quad": (FLAT_LATTICE, build_flat, fn_flat),
     "unit_grid": (product(range(2, 10), range(2, 10), BOOL, BOOL) + product((10, 13), (10, 13), BOOL, BOOL) +
-                  [[n, 2, bool(n % 2), False] for n in HAZARD] + [[2, n, bool(n % 2), True] for n in HAZARD], build_grid, fn_unit_grid),
+                  [[n, 2, bool(n % 2), False] for n in HAZARD] + [[2, n, bool(n % 2), True] for n in HAZARD] +
+                  [[a, b, bool(a % 2), False] for a, b in pow2_pairs(2, 2)] +
+                  [[a + 1, b + 1, False, False] for a, b in pow2_pairs(1, 1, range(255, 258))], build_grid, fn_unit_grid),
     "unit_triangle": (product(range(2, 10), range(2, 10), BOOL) + [[10, 10, False], [10, 10, True], [13, 13, True]] +
-                      [[n, n, False] for n in HAZARD if n <= 64], build_unit_triangle, fn_unit_triangle),
+                      [[n, n, False] for n in HAZARD if n <= 64] + [[17, 17, False], [22, 22, True], [23, 23, False]],
+                      build_unit_triangle, fn_unit_triangle),
     "polylines": (POLYLINE_LATTICE, build_polyline, fn_polylines),
     "transformations": (TRANSFORM_LATTICE, build_transform, fn_transformations),
 })
@@ -1722,10 +1830,10 @@ def full_lattice():
             for k in range(REAL_VARIANTS):
                 src = RngSrc(random.Random(zlib.crc32(repr((name, p, k)).encode())))
                 case = build(p, src)
-                case.update(common_flags(src, case))
+                case.update(common_flags(src, tag_sizes(case)))
                 if k == 0:
                     case.update(np_ints=False, config={})      # variant 0 of every lattice point: library defaults
-                elif case.get("wide") == "hazard":
+                elif case.get("wide") in ("hazard", "pow2"):
                     continue                                   # the large resolutions once each
                 case["family"] = name
                 js = repr(case)
@@ -1736,6 +1844,30 @@ def full_lattice():
 
 
 LATTICE_CASES = full_lattice()
+
+
+def big_cases():
+    """results whose vertex / face counts sit around 65536 (and 32768): a handful of realised cases, a few seconds each"""
+    import random
+    pts = [("sphere_uv", [255, 257, False]), ("sphere_uv", [257, 255, False]), ("sphere_uv", [256, 256, False]),
+           ("torus", [255, 257, False]), ("torus", [256, 256, False]), ("torus", [257, 255, True]), ("torus", [128, 128, True]),
+           ("unit_grid", [256, 256, False, False]), ("unit_grid", [255, 257, True, False]),
+           ("cylinder", [32767, False, "random"]), ("cylinder", [32768, False, "z"]), ("cylinder", [16384, False, "x"]),
+           ("polylines", ["chain_of_vertices", 65536, True, 3, True]), ("polylines", ["vector_field", 32768, 3, False])]
+    out = []
+    for k, (name, p) in enumerate(pts):
+        case = build_of(name)(p, RngSrc(random.Random(1000 + k)))
+        case.update(np_ints=False, int_scalars=False, config={}, family=name)
+        case["wide"] = "pow2"
+        out.append(case)
+    return out
+
+
+def build_of(name):
+    return FAMILIES[name][1]
+
+
+BIG_CASES = big_cases()
 
 
 def fn_lattice(case, ctx):
@@ -1752,6 +1884,8 @@ SUBCHECKS = [SubCheck(name, family_strategy(name), FAMILIES[name][2], quick=3 * 
     # bare sampled_from over a finite list: Hypothesis never repeats a choice sequence, so a budget >= len(LATTICE_CASES)
     # enumerates the whole lattice in every thorough shard (it stops by itself once the list is exhausted)
     SubCheck("lattice", st.sampled_from(LATTICE_CASES), fn_lattice, quick=len(LATTICE_CASES), thorough=len(LATTICE_CASES) + 50),
+    # element counts around 2**16 / 2**15: every case in each thorough shard, one (random) case per quick shard
+    SubCheck("big", st.sampled_from(BIG_CASES), fn_lattice, quick=8, thorough=len(BIG_CASES) + 5, watchdog=(120, 300)),
 ]
 
 
